@@ -62,6 +62,9 @@ def _alarm(signum, frame):
     raise _Timeout('per-run wall cap exceeded')
 
 
+_FROZEN = False
+
+
 def execute_plan(mod, plan, known_open, cap_s=60.0, keep_events=False):
     """Run one plan. Returns a JSON-able outcome dict."""
     ctx = Ctx(mod.PROPERTY, known_open=known_open, record_events=keep_events)
@@ -71,6 +74,10 @@ def execute_plan(mod, plan, known_open, cap_s=60.0, keep_events=False):
     # the cycle collector is a scheduler of its own (it runs whenever allocation counts say so, which depends on everything
     # the process did before): it is switched off for the run and runs only where the plan says so ('gc' steps)
     gc.collect()
+    global _FROZEN
+    if not _FROZEN and 'rsatoolbox' in sys.modules:
+        gc.freeze()          # everything imported so far is permanent: later collections only look at what runs allocate
+        _FROZEN = True
     gc.disable()
     try:
         with contextlib.redirect_stdout(io.StringIO()):     # the library prints progress messages
